@@ -21,4 +21,5 @@ print("status", r["status"], r.get("stderr_tail", ""))
 for u in r["units"]:
     print(json.dumps(u))
 if r.get("counters"): print("counters", r["counters"])
+if meta.get("opcov"): print("opcodes interpreted:", sorted(meta["opcov"]["interpreted"])); print("opcodes native:", sorted(meta["opcov"]["native"]))
 if r.get("events"): print("events", r["events"])
